@@ -132,6 +132,21 @@ Definition C07_row_is_highest_averages_full_statement : Prop :=
                                          (dget_or dseats i 0) [] [] = HA_ok gains None /\
                 forall j, In j ps -> dget_or gains j 0 = mget res i j.
 
+(* the index lists the checker sums over (keys of the vote matrix in first-occurrence order) are
+   duplicate-free and contain every cell with votes; hence under the statement no seat lies outside
+   them and the sums are the full district and party totals *)
+Theorem C07_index_covers_support : forall votes,
+  NoDup (parties votes) /\
+  forall i j, mget votes i j <> 0 -> In i (districts votes) /\ In j (parties votes).
+Proof. intros votes. split; [apply parties_nodup|apply support_in_index]. Qed.
+Theorem C07_no_seat_outside : forall d votes dseats pseats res rho gamma,
+  spec_with d (districts votes) (parties votes) votes dseats pseats res rho gamma ->
+  forall i j, mget res i j <> 0 -> In i (districts votes) /\ In j (parties votes).
+Proof.
+  intros d votes dseats pseats res rho gamma S i j H. apply support_in_index.
+  intros Hv. apply H. apply (sp_zero _ _ _ _ _ _ _ _ _ S i j Hv).
+Qed.
+
 (* ---- non-vacuity ---- *)
 Definition ex_votes : mat := [(1%positive, [(1%positive, 10); (2%positive, 20)]); (2%positive, [(1%positive, 30); (2%positive, 5)])].
 Definition ex_res : mat := [(1%positive, [(1%positive, 1); (2%positive, 2)]); (2%positive, [(1%positive, 2)])].
@@ -166,3 +181,5 @@ Print Assumptions C07_feasible_ref_sound.
 Print Assumptions C07_cut_sound.
 Print Assumptions C07_matrix_ok_reflect.
 Print Assumptions C07_row_divisor_apportionment.
+Print Assumptions C07_index_covers_support.
+Print Assumptions C07_no_seat_outside.
